@@ -486,6 +486,7 @@ class HostileWorld(MediaBase):
         p = self.sctp["P"]
         tsn = p._local_tsn
         p._local_tsn = (tsn + 1) & 0xFFFFFFFF
+        self._borrowed_tsn = True
         return tsn
 
     def build_sctp(self, cls, k):
@@ -754,6 +755,7 @@ class HostileWorld(MediaBase):
             self.fabric.loop.call_soon(self.vconn.inject, data, context=pair.ctx["V"])
             return
         if cls in SCTP_VOID or cls in SCTP_CHANGING:
+            self._borrowed_tsn = False
             data, changing = self.build_sctp(cls, k)
             if self.spec["property"] == "C08":
                 self.c08_monitor(k)
@@ -764,7 +766,8 @@ class HostileWorld(MediaBase):
                 # during association set-up these chunks *are* the handshake (an ERROR ends the attempt, an INIT ACK
                 # or COOKIE ACK from the authenticated peer is acted upon): a protocol effect, not a void datagram
                 changing = True
-            if (cls in ("data-duplicate-tsn", "sack-old", "sack-weird-gaps", "sack-counts-beyond-body", "forward-tsn-old")
+            if ((cls in ("data-duplicate-tsn", "sack-old", "sack-weird-gaps", "sack-counts-beyond-body", "forward-tsn-old")
+                 or getattr(self, "_borrowed_tsn", False))
                     and self.sctp["V"]._association_state.name != "ESTABLISHED"):
                 # built relative to the victim's TSN state, which is not settled before the association is up:
                 # by the time it lands the "old" TSN may be ahead, i.e. a lie with a legitimate protocol effect
